@@ -87,19 +87,22 @@ CLAIMED = {
               "behaves as this function - input WBS and tasks untouched (snapshot through every public getter), result a separate WBS with the same "
               "ids, hierarchy, sibling order, links and custom attributes, same result when calc is repeated on the same scheduler object and on a "
               "fresh one - is what this check's correspondence stream tests on every case. Proved: C06_dates_present_* (every task of the result "
-              "has start and end) and C06_clock_partial (two clocks whose readings all lie on days before the project start day and before every "
-              "user-fixed start without fixed end give the identical result, errors included). The full clock clause is false on the code: "
-              "C06_clock_full_fails is a kernel-checked counterexample with both clocks not later than the project start (finding KF-S6-C06, "
-              "replayed on every run). " + SCHED_TIE),
+              "has start and end) and C06_clock_partial (two clocks whose readings are all not later than the project start, lie on days before every "
+              "user-fixed start without fixed end and - when some leaf has no work left - are not later than the midnight of the project start's "
+              "day give the identical result, errors included; the first condition was 'on a day before the project start day' until the repair "
+              "of the end clamp). The full clock clause is false on the code: C06_clock_full_fails (a leaf without work left, project start not at "
+              "midnight) and C06_clock_fixed_start_fails (a user-fixed start in the past: work is booked from the clock on, as C02/C04 demand) are "
+              "kernel-checked counterexamples with both clocks not later than the project start (finding KF-S6-C06, replayed on every run). The "
+              "scheduler object is also re-used after other calcs, built under another clock, and its calendars / the WBS changed in between. " + SCHED_TIE),
         design='6 (C06)', technique='Lean 4 proof (clock-independence by simulation) + kernel-checked counterexample + differential correspondence with repeated calls'),
     'C08': dict(
         text=("PARTIAL. Proved for every input of the model: C08_noIdle_partial - with balancing on, every day from a leaf's release day (latest "
               "of project start, clock, min_start, prerequisite ends) up to, excluding, its last work day is fully booked on its resource in the "
               "final ledger, when no task that has children carries a link (finding KF-S3-C08 otherwise; also assumes dates not before 1970, the "
-              "code's floor for a missing min_start); C08_encode_partial - start = first work day's midnight + share booked before the task, end = "
-              "last work day's midnight + share booked up to and including it, when every clock reading lies on a day before the project start day "
-              "(finding KF-S6-C08 for a clock on the start day); C08_order - leaves that take part in no dependency get capacity in WBS order (full). "
-              "Both full statements have kernel-checked counterexamples (C08_*_full_fails) replayed on the implementation. The last clause (dates do "
+              "code's floor for a missing min_start); C08_encode - start = first work day's midnight + share booked before the task, end = "
+              "last work day's midnight + share booked up to and including it, whenever the clock is not later than the project start (the "
+              "statement's own condition; full since the repair of the end clamp, former finding KF-S6-C08); C08_order - leaves that take part in no dependency get capacity in WBS order (full). "
+              "The full no-idle statement has a kernel-checked counterexample (C08_noIdle_full_fails) replayed on the implementation. The last clause (dates do "
               "not change when unrelated tasks are removed, balancing off): C08_removal_free_partial - the dates, estimate, spent and (day, units) "
               "rows of a leaf that takes part in no dependency are a function of its own data, its calendar, the project start, the (constant) "
               "clock and the default estimate, hence equal in any two WBSs that agree on those; for tasks with prerequisites (whose dates depend "
